@@ -52,6 +52,6 @@ def plan(tier):
            timeout=t, desc="per-parameter marker decision table", symbolic="shape selectors"),
         CH("sequence", "harness.c20", "sequence", seq, timeout=t, desc="markers sit on their own declaration",
            symbolic="shape selectors"),
-        CH("flush_step", "harness.c20", "flush_step", [f"0:{k},1:{s}" for k in range(4) for s in range(n if k == 0 else 12)], timeout=t,
+        CH("flush_step", "harness.c20", "flush_step", [f"0:{k},1:{s}" for k in range(4) for s in range(n if k == 0 else N_CLS_SHAPES)], timeout=t,
            desc="inductive step over the pending-marker state", symbolic="shape selectors + arbitrary pending set"),
     ]
